@@ -479,8 +479,17 @@ func (x *c15Exec) check(finished bool) {
 		for k := 0; k < c.S; k++ {
 			s := &sts[k]
 			if s.nInit == 0 {
-				if s.nNext > 0 || len(s.ctBegin) > 0 || len(s.recv) > 0 {
-					x.viol("async:state-used-without-initiate", fmt.Sprintf("state %d had CanTransition/Receive/Next calls but Initiate was never called", k), wit())
+				// Receive may legitimately reach the new current state before
+				// (or, on cancellation, without) its Initiate being called:
+				// initiation runs on its own goroutine.
+				if s.nNext > 0 || len(s.ctBegin) > 0 {
+					x.viol("async:state-used-without-initiate", fmt.Sprintf("state %d had CanTransition/Next calls but Initiate was never called", k), wit())
+				}
+				for _, rs := range s.recv {
+					if k > 0 && (sts[k-1].nNext == 0 || rs < sts[k-1].next) {
+						x.viol("async:receive-by-non-current-state", fmt.Sprintf("Receive of state %d was called while another state was current", k), wit())
+						break
+					}
 				}
 				continue
 			}
@@ -536,7 +545,7 @@ func (x *c15Exec) check(finished bool) {
 				if !ok || fs.k != c.S-1 {
 					x.viol("async:outcome:not-final-state", fmt.Sprintf("Execute returned without error but not in the final state: %T %+v", m.result, m.result), wit())
 				} else if visited != c.S || sts[c.S-1].nNext == 0 {
-					x.viol("async:outcome:final-without-visiting-all", fmt.Sprintf("Execute returned the final state but only %d of %d states were initiated", visited, c.S), wit())
+					x.viol("async:outcome:final-without-visiting-all", fmt.Sprintf("Execute returned the final state but %d of %d states were initiated and Next of the final state was called %d times", visited, c.S, sts[c.S-1].nNext), wit())
 				}
 			case m.result != nil:
 				x.viol("async:outcome:state-and-error", "Execute returned both a state and an error", m.err.Error())
